@@ -420,6 +420,9 @@ NODE_RULES = {'n1.rules': '[T]\nmatch: description in ("NETFLIX", "HULU")\ncateg
               'n3.rules': '[C]\nmatch: len([r for r in orders if r.amount > 1]) > 0\ncategory: X\nsubcategory: Y\ntags: {orders[0].item}, {amount // 10}\n',
               'n4.rules': '[W]\nlet: z = (q := amount)\nmatch: z > 5 and contains("UBER")\ncategory: X\nsubcategory: Y\nfield: first = description[0]\n',
               'n5.rules': 'v = 1 if amount > 5 else 0\n\n[I]\nmatch: v == 1 and -amount < 0\ncategory: X\nsubcategory: Y\ntags: {lambda: 1}, {amount ** 2}\n'}
+# patterns Python's re compiles with a FutureWarning (something is said on stderr the first time): first use and later uses agree
+ARG_GROUPS.append(['regex("SQ [[]X[]] STARBUCK")', 'regex("STARBUCK[[:space:]]")', 'extract("(S[a-z&&[^x]]+)")', 'regex("STARBUCK")',
+                   'regex_replace(description, "[[]", "(")'])
 for _g in ARG_GROUPS:
     COLLISION_GROUPS.append(_g)
     for _e in _g:
@@ -494,6 +497,8 @@ CMD_BUDGETS = {
     'b_none': {'config/settings.yaml': 'year: 2025\n' + _SRC, 'data/card.csv': _CARD},
     'b_csv': {'config/settings.yaml': 'year: 2025\n' + _SRC,
               'config/merchant_categories.csv': 'Pattern,Merchant,Category,Subcategory\nNETFLIX,Netflix,Fun,TV\nUBER,Uber,Travel,Taxi\n', 'data/card.csv': _CARD},
+    'b_csv_nodata': {'config/settings.yaml': 'year: 2025\n' + _SRC,
+                     'config/merchant_categories.csv': 'Pattern,Merchant,Category,Subcategory\nNETFLIX,Netflix,Fun,TV\n'},
     'b_missing': {'config/settings.yaml': 'year: 2025\n' + _SRC + 'merchants_file: config/nosuch.rules\n', 'data/card.csv': _CARD},
     'b_views': {'config/settings.yaml': 'year: 2025\n' + _SRC + 'merchants_file: config/merchants.rules\nviews_file: config/views.rules\n',
                 'config/merchants.rules': CMD_RULES[0].replace('tags: income\n', ''), 'config/views.rules': '[Food]\nfilter: category == "Food"\n\n[Large]\nfilter: total > 10\n',
@@ -501,7 +506,11 @@ CMD_BUDGETS = {
 }
 CMD_ARGV = [['up', '{cfg}', '--format', 'json'], ['up', '{cfg}', '--format', 'json', '-v'], ['up', '{cfg}', '--format', 'summary'],
             ['explain', '{cfg}'], ['explain', 'Netflix', '{cfg}'], ['explain', 'COFFEE SHOP', '{cfg}', '--amount', '4.5'],
-            ['discover', '{cfg}', '--format', 'json'], ['run', '{cfg}', '--format', 'markdown']]
+            ['discover', '{cfg}', '--format', 'json'], ['run', '{cfg}', '--format', 'markdown'],
+            ['diag', '{cfg}'], ['diag', '{cfg}', '--format', 'json'], ['inspect', '{budget}/data/card.csv'], ['discover', '{cfg}'],
+            ['explain', '{cfg}', '--format', 'json'], ['up', '{cfg}', '-q'], ['up', '{cfg}', '--summary'],
+            # commands that change the budget (the reference process starts from the tree as it was just before the command)
+            ['up', '{cfg}', '--migrate', '--format', 'json'], ['init', '{budget}'], ['up', '{cfg}', '--migrate', '-q']]
 
 
 def gen_cmd_history(rng):
@@ -519,7 +528,13 @@ def gen_cmd_history(rng):
             ops.append({'op': 'EDIT', 'path': b + '/config/merchants.rules', 'text': rng.choice(CMD_RULES)})
             ops.append({'op': 'CMD', 'budget': b, 'argv': rng.choice(CMD_ARGV)})
             continue
-        ops.append({'op': 'CMD', 'budget': rng.choice(names), 'argv': rng.choice(CMD_ARGV[:3] if rng.random() < 0.6 else CMD_ARGV)})
+        if rng.random() < 0.25:
+            # two different commands back to back on one budget (diag then up, a migration then up, init then explain ...)
+            b = rng.choice(names)
+            for argv in rng.sample(CMD_ARGV, 2):
+                ops.append({'op': 'CMD', 'budget': b, 'argv': argv})
+            continue
+        ops.append({'op': 'CMD', 'budget': rng.choice(names), 'argv': rng.choice(CMD_ARGV[:3] if rng.random() < 0.5 else CMD_ARGV)})
     return ops
 
 
@@ -805,7 +820,8 @@ def do_op(st, op, ch, root):
         st.rules, st.transforms = rules, transforms
         return ['loaded', _canon_rules(rules), _canon_val(transforms)]
     if k == 'CMD':
-        return run_main([a.replace('{cfg}', os.path.join(root, op['budget'], 'config')) for a in op['argv']], root)
+        return run_main([a.replace('{cfg}', os.path.join(root, op['budget'], 'config')).replace('{budget}', os.path.join(root, op['budget']))
+                         for a in op['argv']], root)
     rows = st.rows if op.get('rows') else None
     try:
         if k == 'CLASSIFY':
@@ -924,15 +940,50 @@ def run_history(ops, scratch):
     ctlp = os.path.join(scratch, 'ctl')
     util.write_world(root, files_at(ops, 0))
 
+    snapdir = os.path.join(scratch, 'snaps')
+    cmd_seen = []
+
+    def tree_delta(pre, post):
+        # what the command did to the budget directories: which paths were created / deleted / changed, and - outside the report
+        # directories - to what
+        out = []
+        for r_, kind in util.diff(pre, post):
+            c = post.get(r_)
+            inside_output = 'output' in r_.split('/')[:-1]
+            out.append([r_, kind, '-' if (c is None or inside_output) else util.sha(c)])
+        return out
+
+    def copy_tree(src, dst):
+        # with the un-interposed calls: this is the harness looking at the disk, not the simulated process acting on it
+        for d, dirs, fs in os.walk(src):
+            rel = os.path.relpath(d, src)
+            tgt = dst if rel == '.' else os.path.join(dst, rel)
+            try:
+                proc._real_os['mkdir'](tgt)
+            except FileExistsError:
+                pass
+            for f in fs:
+                with proc._real_open(os.path.join(d, f), 'rb') as fi, proc._real_open(os.path.join(tgt, f), 'wb') as fo:
+                    fo.write(fi.read())
+
     def s_main():
         st = State()
         out = []
         last_load = 'none'
         for j, op in enumerate(ops):
+            if op['op'] == 'CMD':
+                try:
+                    proc._real_os['mkdir'](snapdir)
+                except FileExistsError:
+                    pass
+                copy_tree(root, os.path.join(snapdir, str(j)))
+                cmd_seen.append(j)
             a0 = abstract_state(st, last_load)
             need_frame = op['op'] in ('CLASSIFY', 'CLASSIFY_FILE', 'MATCH', 'EVAL', 'FILTER', 'VIEWS')
             f0 = frame(st) if need_frame else None
             res = do_op(st, op, CH[0], root)
+            if op['op'] == 'CMD':
+                copy_tree(root, os.path.join(snapdir, '%d.post' % j))
             f1 = frame(st) if need_frame else None
             changed = []
             if need_frame:
@@ -967,7 +1018,11 @@ def run_history(ops, scratch):
                 data = data[n:]
             proc._real_os['close'](fd)
             return 0
-        r = proc.spawn(world, {'net': 'down'}, target, ctl_parent=ctlp, timeout=60)
+        plan = {'net': 'down'}
+        if any(o.get('stderr_broken') for o in ops[:1]):
+            # nobody reads stderr: every write to it fails, in the long-lived process and in every reference process alike
+            plan['stdout_fault'] = {'after_effect': -1, 'stream': 'stderr'}
+        r = proc.spawn(world, plan, target, ctl_parent=ctlp, timeout=60)
         if r.exit != 0:
             raise proc.HarnessError('library-level simulated process failed: exit=%s err=%s' % (r.exit, r.err[-2000:]))
         return r.result
@@ -982,7 +1037,11 @@ def run_history(ops, scratch):
             continue
         ctx, L = context_ops(ops, j)
         at = j if op['op'] in ('LOAD', 'CMD') else (L if L is not None else 0)
-        if epoch != at or op['op'] in ('LOAD', 'CMD'):
+        if op['op'] == 'CMD':
+            # the tree as the long-lived process found it just before this command (earlier commands may have migrated, initialised, written reports)
+            util.restore(rroot, util.snapshot(os.path.join(snapdir, str(j))))
+            epoch = None
+        elif epoch != at or op['op'] == 'LOAD':
             util.write_world(rroot, files_at(ops, at))
             epoch = at
 
@@ -992,7 +1051,12 @@ def run_history(ops, scratch):
             for i in ctx + [j]:
                 res = do_op(st, ops[i], CH[0], rroot)
             return res
-        r_out.append(run_in(rroot, r_main))
+        res_r = run_in(rroot, r_main)
+        if op['op'] == 'CMD':
+            pre = util.snapshot(os.path.join(snapdir, str(j)))
+            res_r = res_r + [['tree', tree_delta(pre, util.snapshot(rroot))]]
+            s_out[j]['res'] = s_out[j]['res'] + [['tree', tree_delta(pre, util.snapshot(os.path.join(snapdir, '%d.post' % j)))]]
+        r_out.append(res_r)
     return s_out, r_out
 
 
@@ -1037,7 +1101,7 @@ def op_label(op):
     if k == 'CLOCK':
         return 'CLOCK ' + op['today']
     if k == 'CMD':
-        return 'tally ' + ' '.join(a.replace('{cfg}', op['budget'] + '/config') for a in op['argv'])
+        return 'tally ' + ' '.join(a.replace('{cfg}', op['budget'] + '/config').replace('{budget}', op['budget']) for a in op['argv'])
     return k
 
 
@@ -1109,6 +1173,8 @@ def run_one(seed, i, tier, scratch):
     for op in ops:
         if op['op'] == 'LOAD':
             op['order'] = rng.choice(['transforms-first', 'transforms-first', 'rules-first'])
+    if rng.random() < 0.12 and ops:
+        ops[0] = dict(ops[0], stderr_broken=True)
     res = execute(ops, scratch, seed, i)
     if i < 2:
         res['samples'] = [{'seed': seed, 'run': i, 'history': [op_label(o) if o['op'] not in ('EDIT', 'FILES') else '%s %s' % (o['op'], o.get('path', '')) for o in ops]}]
